@@ -102,7 +102,7 @@ def generate(seed: int, tier: str) -> Dict[str, Any]:
             ver += r.choice([1, 1, 3])
             kind = r.weighted([("write", 6), ("write_killed", 2), ("write_sidecar_fails", 1)])
             w = {"%s|%s|weight" % (r.choice(["node", "edge"]), r.choice(IDS)): r.choice([0.0, 1.0, -0.3333333333333333, 1e-17, 123456.789]) for _ in range(r.randint(0, 4))}
-            ops.append({"op": kind, "agent": r.choice(["Ambrose", "Bea", "ü"]), "version": r.choice([str(ver), "v%d" % ver]), "turn": r.choice([0, 1, ver]),
+            ops.append({"op": kind, "agent": (r.choice(["a/b", "../esc", "a\\b", "100%", "x/../y"]) if r.chance(0.06) else r.choice(["Ambrose", "Bea", "ü"])), "version": r.choice([str(ver), "v%d" % ver]), "turn": r.choice([0, 1, ver]),
                         "weights": w, "gel": _gel(r), "kill_at": r.randint(0, 40), "applied": r.randint(0, 3),
                         "gel_field": r.choice(["graph", "graph", "gel"])})
         elif x < 0.8:
@@ -187,6 +187,21 @@ def execute(p: Dict[str, Any]) -> Dict[str, Any]:
                             bad("write-raised:%s:%s" % (k, type(e).__name__), "op#%d: %r" % (oi, e))
                             break
                     name = "state_%s.json" % op["agent"]
+                    if not killed:
+                        # the file must be a direct child of the snapshot directory, whatever the agent is called:
+                        # discovery lists that directory only
+                        name = os.path.basename(path)
+                        if os.path.dirname(os.path.abspath(path)) != os.path.abspath(ee.snap):
+                            bad("snapshot-written-outside-directory", "op#%d: agent %r -> %s" % (oi, op["agent"], os.path.relpath(path, root)))
+                            break
+                    else:
+                        for cand in sorted(os.listdir(ee.snap)) if os.path.isdir(ee.snap) else []:
+                            if cand.endswith(".json") and cand.startswith("state_"):
+                                try:
+                                    if json.load(open(os.path.join(ee.snap, cand), encoding="utf-8")).get("agent") == op["agent"]:
+                                        name = cand
+                                except Exception:
+                                    pass
                     if k == "write_sidecar_fails":
                         stats["sidecar_faults_fired"] = stats.get("sidecar_faults_fired", 0) + sum(fs.plan.fired.values())
                     if killed:
